@@ -28,6 +28,7 @@ EXPLANATION = (
     "antichain maximality, peeling arithmetic."
     ' (R7, round 3) non-integral weights reach the exact network simplex as fractions.'
     " (R1c, round 4) module-level functions that take the caller's graph are not memoised."
+    ' (R7, hunt 7) get_flow_width hands integral capacities to the simplex as Python ints; the sink candidate of max_bottleneck_path is tested for None; compute_flow_decomp_safe_paths validates before it peels.'
 )
 DECIDED = ["caches are written only by their owner, keyed by the query", "queries have no side effect on shared substrate state; cached results are never mutated",
            "substrate graphs are frozen after construction"]
@@ -367,6 +368,12 @@ def peeling_rule(prog: Program, rep, RID: str):
     # subtraction loop
     subs = [s for s in lp.body if isinstance(s, ast.For)]
     augs = [a for s in subs for a in ast.walk(s) if isinstance(a, ast.AugAssign)]
+    # `t = t - x` is read like `t -= x` (the plain form does not touch the value object the caller's graph shares: C18.R1)
+    for s in subs:
+        for a in ast.walk(s):
+            if isinstance(a, ast.Assign) and len(a.targets) == 1 and isinstance(a.targets[0], ast.Subscript) and isinstance(a.value, ast.BinOp) and \
+                    isinstance(a.value.op, (ast.Sub, ast.Add)) and norm(a.value.left) == norm(a.targets[0]):
+                augs.append(ast.copy_location(ast.AugAssign(target=a.targets[0], op=a.value.op, value=a.value.right), a))
     if len(subs) != 1 or len(augs) != 1 or not isinstance(subs[0].target, ast.Name):
         raise AnalysisError(f"{key}: subtraction loop not recognised")
     sl, aug = subs[0], augs[0]
